@@ -197,6 +197,111 @@ class RereadStream(MonStream):
         return super().generate(rng, tier)[:60 if tier == "quick" else 800]
 
 
+class SweepMonStream(MonStream):
+    """sweeps: one component is a phase shifter whose PS value is swept (exact matrices 1, i, -1, -i), a second
+    parameter is given as a scalar or a length-1 array; row k of the monitor table and slice k of the external
+    matrix are compared with the model of the k-th point; the parameter columns of the table must carry the k-th
+    value of every parameter"""
+    name = "sweep"
+    reread = True
+    case_type = "mons_case"
+    verdict_fn = "mons_verdict"
+    shard_size = 10
+    PSV = {0.0: 1, 0.5: 1j, 1.0: -1, 1.5: -1j}
+
+    def generate(self, rng, tier):
+        out = []
+        for d in super().generate(rng, tier)[:50 if tier == "quick" else 800]:
+            d["sweep"] = [rng.choice(sorted(self.PSV)) for _ in range(rng.randint(2, 4))]
+            d["second"] = rng.choice(["none", "scalar", "len1"])
+            for c in d["comps"]:
+                c.pop("bare", None)      # bare structures carry ONE fixed matrix: not sweepable by construction
+            out.append(d)
+        return out
+
+    def _point(self, d, k):
+        e = copy.deepcopy(d)
+        z = self.PSV[d["sweep"][k]]
+        e["comps"][0]["S"] = [[[0.0, 0.0], [z.real, z.imag]], [[z.real, z.imag], [0.0, 0.0]]]
+        return e
+
+    def run_sweep(self, d):
+        sol, sts = netlib.build(d)
+        names = [x[2] for x in d["expo"]]
+        for i in d["mon"]:
+            sol.monitor_structure(sts[i], name=f"M{i}")
+        kw = {"PS": np.array(d["sweep"])}
+        if d["second"] == "scalar":
+            kw["wl"] = 1.25
+        elif d["second"] == "len1":
+            kw["wl"] = np.array([1.25])
+        mod = sol.solve(**kw)
+        exc = {n: complex(*v) for n, v in d["exc"].items()}
+        tab = mod.get_monitor(dict(exc), power=d["power"])
+        ns = len(d["sweep"])
+        if len(tab) != ns or not np.array_equal(np.asarray(tab["PS"], float), np.array(d["sweep"])):
+            raise ValueError("parameter column PS of the monitor table")
+        if d["second"] != "none" and not np.array_equal(np.asarray(tab["wl"], float), np.full(ns, 1.25)):
+            raise ValueError("parameter column wl of the monitor table")
+        if sorted(p.name for p in mod.pin_dic) != sorted(names):
+            raise ValueError("exposed pin set differs")
+        rows = []
+        for k in range(ns):
+            M = netlib.observe_expo(mod, names, k)
+            cols = {}
+            for c in tab.columns:
+                m = re.fullmatch(r"M(\d+)_p(\d+)_(i|o)", str(c))
+                if m:
+                    cols.setdefault((int(m.group(1)), int(m.group(2))), {})[m.group(3)] = complex(np.asarray(tab[c])[k])
+            read = []
+            for (ci, pk), v in sorted(cols.items()):
+                if "i" not in v or "o" not in v:
+                    raise ValueError("incomplete monitor column pair")
+                read.append((ci, pk, v["i"], v["o"]))
+            rows.append((M, read))
+        return rows
+
+    def run(self, d):
+        try:
+            rows = self.run_sweep(d)
+        except Exception:
+            rows = None
+        byname = {n: (c, k) for (c, k, n) in d["expo"]}
+        u = clist("(%s, %s)" % (netlib.spin(*byname[n]), cq(complex(*v))) for n, v in d["exc"].items() if n in byname)
+        out = []
+        for k in range(len(d["sweep"])):
+            if rows is None:
+                obs, rd = "Raised", "Raised"
+            else:
+                M, read = rows[k]
+                obs = netlib.obs_matrix_lit(M)
+                rd = "Obs " + clist("(%s, %s, %s)" % (netlib.spin(c, q), cf(a), cf(b)) for c, q, a, b in read)
+            out.append("{| mn_net := %s; mn_ids := %s; mn_u := %s; mn_power := %s; mn_read := %s |}"
+                       % (netlib.net_case_lit(self._point(d, k), obs), clist(cnat(i) for i in d["mon"]), u,
+                          "true" if d["power"] else "false", rd))
+        return clist(out)
+
+    def classify(self, d):
+        return "ns%d/%s%s" % (len(d["sweep"]), d["second"], "/pow" if d["power"] else "")
+
+    def shrink(self, d):
+        out = []
+        for e in super().shrink(d):
+            if e["comps"] and e["comps"][0].get("ps"):
+                out.append(e)
+        if len(d["sweep"]) > 2:
+            for i in range(len(d["sweep"])):
+                e = copy.deepcopy(d)
+                del e["sweep"][i]
+                out.append(e)
+        return out
+
+    def py_repro(self, d):
+        return ("import sys; sys.path.insert(0,'/verif/harness'); import c10, json\n"
+                f"d=json.loads({json.dumps(d)!r})\n"
+                "print(c10.SweepMonStream().run_sweep(d))\n")
+
+
 # ---------------------------------------------------------------------------------------------
 # multi-mode circuits: monitored structures linked through pins that carry modes
 
@@ -323,7 +428,7 @@ TRUSTED = [
 ]
 
 if __name__ == "__main__":
-    main("C10", [MonStream(), LateStream(), RereadStream(), ModeMonStream()],
+    main("C10", [MonStream(), LateStream(), RereadStream(), ModeMonStream(), SweepMonStream()],
          level_text="props/C10.v; the tie declares every non-empty proper subset of small circuits (random subsets of larger "
                     "ones) as monitors, excites random subsets of the exposed pins with complex amplitudes (amplitude and power "
                     "mode), and compares the external matrix and the SET of read-out columns (a spurious or missing column is a "
